@@ -574,7 +574,12 @@ def run(c, facts, tier):
         c.ob("C08.fold", pk, "symbolic branch present", False, "symbolic alternative not found")
     from .. import mir as _mir
 
-    nacc = _mir.order_rule(c, facts, "C08.fold", [pk], "clauses must be applied in the order written (u+r,u-r ≠ u-r,u+r) and none may be dropped")
+    # the accumulation may sit in a helper the permission parser is written with (`comma_list(item)`): every parser function
+    # of the crate its resolved body reaches counts as an owner
+    m8 = _mir.load(True)
+    roots8 = [q for q in m8.bodies if _mir.e1_key(q, facts) == pk]
+    owners8 = sorted({_mir.e1_key(q, facts) for q in m8.reachable(roots8) if _mir.e1_key(q, facts) is not None and ("find_parser" in q or _mir.e1_key(q, facts) == pk)} | {pk})
+    nacc = _mir.order_rule(c, facts, "C08.fold", owners8, "clauses must be applied in the order written (u+r,u-r ≠ u-r,u+r) and none may be dropped")
     c.ob("C08.fold", pk, "the clause list is an accumulation of the resolved program", nacc >= 1, "%d winnow accumulation(s) found in %s" % (nacc, pk), nontrivial=False)
     # ---------------------------------------------------------------- prefix
     scope = b.scope(pp.module)
